@@ -937,6 +937,29 @@ def classify(case, obs):
             tags.append("answer:" + ("finite" if obs[key]["v"] is not None else "error:" + obs[key]["error"] if obs[key].get("error") else "nan/inf"))
     if k == "norms" and case["which"] == "Lnorm":
         tags.append("p:%s" % case["p"])
+    # decision sites reached with equality (so that < vs <= mutations are visible)
+    if k == "stats" and w is not None and case["tol"] > 0 and any(abs(v) == case["tol"] for v in w):
+        tags.append("tie:weight==tol")
+    if k == "stats" and w is not None and any(v == 0 for v in w):
+        tags.append("tie:weight==0")
+    if k == "order":
+        xs, ws = _ref_sorted(case["x"], case["w"])
+        c, half = F(0), sum(ws) / 2
+        for b in ws:
+            c += b
+            if c == half and half != 0:
+                tags.append("tie:cumulative-weight==half")
+                break
+    if k == "surgery" and wh != "collapse":
+        ix, n = case["index"], len(case["w"])
+        tags.append("index:" + ("none" if ix is None else "empty" if not ix else
+                                "out-of-range" if any(not (-n <= i < n) for i in ix) else
+                                "negative" if any(i < 0 for i in ix) else "plain"))
+    if k == "impose" and wh != "mean":
+        st = _ref_stats(case["x"], case["w"])
+        if st is not None:
+            base = st["var"] if wh in ("variance", "std") else st["spread"]
+            tags.append("degenerate:" + ("zero-base" if base == 0 else "negative-target" if case["t"] < 0 else "no"))
     if k == "surgery" and wh == "collapse":
         n = len(case["w"])
         ok = all(-n <= i < n for p in case["pairs"] for i in p)
